@@ -6,6 +6,7 @@ import (
 	"os"
 	"os/exec"
 	"path/filepath"
+	"runtime"
 	"strings"
 
 	"verif/internal/vf"
@@ -54,8 +55,7 @@ func ThirdTarget(r *vf.Run) {
 	if len(cmdline) < 2 || os.Getenv("VERIF_CHILD") != "" || r.OnlyPhase != "" {
 		return
 	}
-	area := map[string]string{"C01": "cpu", "C02": "cpu", "C08": "cpu", "C12": "cpu", "C14": "cpu", "C03": "emitter", "C06": "emitter", "C07": "emitter",
-		"C15": "emitter", "C16": "emitter", "C19": "emitter", "C04": "mappers", "C05": "mappers", "C09": "header", "C10": "rom", "C11": "bus", "C13": "bus", "C17": "colour"}[r.ID]
+	area := probeArea[r.ID]
 	if area == "" {
 		return
 	}
@@ -85,6 +85,51 @@ func ThirdTarget(r *vf.Run) {
 	default:
 		r.SetExtra("js_wasm_probe", fmt.Sprintf("exit %d without a finding: %.200s", code, out))
 	}
+}
+
+var probeArea = map[string]string{"C01": "cpu", "C02": "cpu", "C08": "cpu", "C12": "cpu", "C14": "cpu", "C03": "emitter", "C06": "emitter", "C07": "emitter",
+	"C15": "emitter", "C16": "emitter", "C19": "emitter", "C04": "mappers", "C05": "mappers", "C09": "header", "C10": "rom", "C11": "bus", "C13": "bus", "C17": "colour"}
+
+// OtherMachines runs the probe of this property's area (native build, VERIF_NATIVE_PROBE) in processes
+// confined to 1, 3, 5, 6, 7 and 12 processors (taskset): runtime.NumCPU is fixed when a process starts
+// and GOMAXPROCS does not change it; the machine a user runs on has some other number of cores than this
+// one, and none of the properties mentions it.
+func OtherMachines(r *vf.Run) {
+	probe := os.Getenv("VERIF_NATIVE_PROBE")
+	area := probeArea[r.ID]
+	if probe == "" || area == "" || os.Getenv("VERIF_CHILD") != "" || r.OnlyPhase != "" {
+		return
+	}
+	ts, err := exec.LookPath("taskset")
+	if err != nil {
+		r.SetExtra("other_processor_counts", "taskset not installed: not run")
+		return
+	}
+	var ran []string
+	for _, n := range []int{1, 3, 5, 6, 7, 12} {
+		if n > runtime.NumCPU() {
+			continue
+		}
+		b, err := exec.Command(ts, "-c", fmt.Sprintf("0-%d", n-1), probe, area).CombinedOutput()
+		r.Eval(1)
+		if ee, ok := err.(*exec.ExitError); ok && ee.ExitCode() == 1 {
+			first := "the probe reported a violation"
+			for _, ln := range strings.Split(string(b), "\n") {
+				if strings.HasPrefix(ln, "probe-violation") || strings.HasPrefix(ln, "panic:") {
+					first = ln
+					break
+				}
+			}
+			r.Fail(fmt.Sprintf("on-a-machine-with-%d-processors", n), fmt.Sprintf("process confined to %d processors: %s", n, first), map[string]string{"area": area})
+			continue
+		} else if err != nil {
+			r.SetExtra("other_processor_counts", fmt.Sprintf("%d: did not run: %v", n, err))
+			continue
+		}
+		ran = append(ran, fmt.Sprint(n))
+		r.Cell(fmt.Sprintf("processors:%d:%s", n, area))
+	}
+	r.SetExtra("other_processor_counts", "probe area "+area+" held in processes confined to "+strings.Join(ran, ",")+" processors")
 }
 
 // ConfigChildren: configurations the library's own source reveals (found by ./check scanning it): a build
